@@ -13,6 +13,12 @@ pub const MAX_BLOCK_SIZE: u32 = 128 * 1024;
 pub struct Error { pub k: u8 }
 pub trait Read {
     spec fn avail(&self) -> int;
+    /// std contract of `read`: SOME bytes, at most buf.len() (callers that need an exact count must use read_exact)
+    fn read(&mut self, buf: &mut [u8]) -> (r: Result<usize, Error>)
+        ensures
+            final(buf)@.len() == old(buf)@.len(),
+            r matches Ok(n) ==> n <= old(buf)@.len() && n <= old(self).avail() && final(self).avail() == old(self).avail() - n,
+            r is Err ==> final(self).avail() <= old(self).avail();
     /// ghost mode flag: the reader is a caller-provided chunk of an incremental (slice-to-slice) decode; running out of bytes in the
     /// middle of a block would then turn "need more input" into a hard error, so a block body may only be decoded when it is entirely present
     spec fn incremental() -> bool;
@@ -35,6 +41,8 @@ pub fn first4(s: &[u8]) -> (r: [u8; 4])
 impl<'a> Read for &'a [u8] {
     open spec fn avail(&self) -> int { self@.len() as int }
     open spec fn incremental() -> bool { true }
+    #[verifier::external_body]
+    fn read(&mut self, buf: &mut [u8]) -> (r: Result<usize, Error>) { unimplemented!() }
     #[verifier::external_body]
     fn read_exact(&mut self, buf: &mut [u8]) -> (r: Result<(), Error>) { unimplemented!() }
 }
@@ -234,6 +242,9 @@ impl FrameDecoder {
 {
                     //check if there are enough bytes for the next header
                     if mt_source.len() < 3 {
+                        // progress: the block loop may stop for lack of a header only if fewer than 3 bytes are left (a block header is 3
+                        // bytes, and an empty last block is nothing but its header)
+                        proof { assert(mt_source@.len() < 3); }
                         break;
                     }
                     let (block_header, block_header_size) = block_dec
@@ -243,6 +254,8 @@ impl FrameDecoder {
                     // check the needed size for the block before updating counters.
                     // If not enough bytes are in the source, the header will have to be read again, so act like we never read it in the first place
                     if mt_source.len() < block_header.content_size as usize {
+                        // ... and for lack of content only if the block body is not entirely present yet
+                        proof { assert(mt_source@.len() < block_header.content_size); }
                         break;
                     }
                     state.bytes_read_counter += u64::from(block_header_size);
